@@ -244,9 +244,6 @@ class Ctx:
                 evs.add(m.group(1))
                 if m.group(1) == run_marker:
                     nreset += 1
-        for ev in must_have:
-            if ev not in evs and not (evs & {"Race", "Panic", "Died", "Hang"}):
-                raise Broken("%s: recorded trace has no %s event (hook or driver broken)" % (what, ev))
         ok, hw, total, out = self.validate_trace(module, trace, cfg, deque=deque, timeout=timeout, label=what, env_extra=env_extra)
         self.cov["traces_validated_against_impl"] += max(nreset, 1)
         self.cov["evaluations"] += len(lines)
@@ -254,6 +251,10 @@ class Ctx:
         if len(lines) > 3:
             self.sample({"trace": what, "events": [json.loads(x) if len(x) < 600 else x[:600] + "..." for x in lines[:6]]})
         if ok:
+            # an accepted trace that lacks events it must contain means a hook or driver is broken, not a verdict
+            for ev in must_have:
+                if ev not in evs:
+                    raise Broken("%s: recorded trace has no %s event (hook or driver broken)" % (what, ev))
             log("[trace] %s: accepted, %d events, %d runs" % (what, len(lines), nreset))
             return True
         if hw < 0:
